@@ -345,8 +345,6 @@ class Check:
             # nothing discharged (broken proof/fact): keep the file schema-valid through the generic keys
             cov["obligations_total"] = cov.pop("obligations")
             cov["obligations_discharged"] = cov.pop("discharged")
-            cov["evaluations"] = max(cov["evaluations"], 1)
-            cov["distinct_nontrivial"] = max(cov["distinct_nontrivial"], 2) if meta else 2
         cov.update(meta.get("extra", {}))
         cov.update(self.extra_cov)
         ev = {
